@@ -5,9 +5,9 @@ import time
 
 from . import common as C
 
-ALL_LISTS = ["P1", "P2", "P3", "P4", "P5", "P6", "P7", "P8", "P9", "P10", "P11", "F1", "F2", "F3", "F4", "F5", "F6", "F7", "F8", "F9", "F10", "V1", "V2", "V3", "V4", "V5", "V6", "V7",
+ALL_LISTS = ["P1", "P2", "P3", "P4", "P5", "P6", "P7", "P8", "P9", "P10", "P11", "P12", "F1", "F2", "F3", "F4", "F5", "F6", "F7", "F8", "F9", "F10", "F11", "V1", "V2", "V3", "V4", "V5", "V6", "V7",
              "V8", "V9", "V10", "V11", "V12", "V13", "V14", "V15", "V16", "M1", "M2", "M3", "M4"]
-TRACKED = ["P3", "P4", "P5", "P8", "F3", "F4", "F5", "F6", "F9", "V3", "V4", "V7", "V9", "V10", "V12", "V16", "M2", "M3"]
+TRACKED = ["P3", "P4", "P5", "P8", "P12", "F11", "F3", "F4", "F5", "F6", "F9", "V3", "V4", "V7", "V9", "V10", "V12", "V16", "M2", "M3"]
 # lists of trivial value types for the "never clobbered alive" clause of C06 (observable through the values only)
 C06_TRIVIAL = ["P1", "F1", "V1", "V2", "V5", "M1"]
 ALIGNED = ["P2", "P6", "P10", "F2", "F7", "F10", "V1", "V3", "V5", "V6", "V7", "V8", "V9", "V13", "V15", "V16", "M1", "M4"]
@@ -198,8 +198,9 @@ def spec(prop, tier):
                 [r for r in elem_runs(["F3", "V1", "V3"], ["NP"], tier, 4) if r["arena1"] == 1] + \
                 [r for r in elem_runs(["F3", "V1", "V3"], ["NP"], tier, 3) if r["arena1"] == 0] + \
                 elem_runs(["F1", "F4", "V5", "M1", "M2", "M3"], ["AE", "NP"], tier, 3) + \
-                elem_runs(["V1", "V3", "F3"], ["PP", "T100"], tier, 3) + elem_runs(["V14", "V15"], ["AE"], tier, 3)
-        return elem_runs(["F1", "F3", "F4", "V1", "V3", "V5", "M2", "M3"], ["AE", "NP", "PP", "T100", "T010"], tier, 4)
+                elem_runs(["V1", "V3", "F3"], ["PP", "T100"], tier, 3) + elem_runs(["V14", "V15"], ["AE"], tier, 3) + elem_runs(["P12", "F11", "F6", "P5"], ["AE", "NP"], tier, 3)
+        return elem_runs(["F1", "F3", "F4", "V1", "V3", "V5", "M2", "M3"], ["AE", "NP", "PP", "T100", "T010"], tier, 4) + \
+            elem_runs(["P5", "P12", "F6", "F11", "V10", "V14", "V15", "V16", "P8", "F9"], ["AE", "NP"], tier, 3)
     if prop == "C17":
         lists = ["F1", "F3", "V1", "V3"] if q else ["F1", "F3", "F4", "V1", "V3", "V5", "M2", "M3"]
         allocs = ["AE", "NP", "PP"]
